@@ -363,6 +363,14 @@ def r01_4(run):
                 okd = True
         run.ob('R01.4', mi, wn.ast, "self.defer := the popped command's Deferred before the write", okd, slot='defer-before-write',
                message="self.defer is not set to the popped command's Deferred (tuple index %d) before the write" % idx_d)
+    # one in flight: nothing is popped (and nothing more written) after a write in the same invocation - a loop that keeps
+    # draining the queue writes the commands behind the first one while its reply is outstanding
+    for wn in wnodes:
+        after = g.reachable([s_ for _, s_ in wn.succ], follow_exc=False)
+        again = [x for x in list(pnodes) + list(wnodes) if x in after]
+        run.ob('R01.4', mi, again[0].ast if again else wn.ast, 'after a command is written nothing further is popped or written in this call', not again, slot='one-per-call',
+               message='_maybe_issue_command can reach %s again after writing a command (a draining loop): with two or more commands waiting they are all written '
+                       'back to back and the replies resolve the wrong Deferreds' % (src(again[0].ast)[:50] if again else ''))
     # who may assign the slot
     allowed = ('__init__', '_maybe_issue_command', '_broadcast_response', 'connectionLost')
     n = 0
@@ -954,6 +962,7 @@ RULES = [
 from ..selftest import M  # noqa: E402
 F = 'txtorcon/torcontrolprotocol.py'
 MUTANTS = [
+    M('issue-loop-drains-queue', F, "        if len(self.commands):\n            self.command = self.commands.pop(0)", "        while len(self.commands):\n            self.command = self.commands.pop(0)", ['R01.4']),
     M('ok-trailer-cut-from-every-reply', F, ["        self.response = ''\n        if self.code is None:", "            if resp.endswith('\\nOK'):\n                resp = resp[:-3]\n            self.defer.callback(resp)"], ["        self.response = ''\n        if resp.endswith('\\nOK'):\n            resp = resp[:-3]\n        if self.code is None:", "            self.defer.callback(resp)"], ['R01.5']),
     M('crlf-only-when-missing', F, "            data = cmd + b'\\r\\n'\n", "            data = cmd if cmd.endswith(b'\\r\\n') else cmd + b'\\r\\n'\n", ['R01.2']),
     M('linecb-gets-stuffed-line', F, "        if line.startswith('.'):\n            line = line[1:]\n        if self._wants_lines():\n            self.command[2](line)\n", "        if self._wants_lines():\n            self.command[2](line)\n            return None\n        if line.startswith('.'):\n            line = line[1:]\n        if False:\n            pass\n", ['R01.12/R13.1']),
